@@ -119,6 +119,37 @@ class Const(object):
         self.value = value
 
 
+LIBRARY_DATA_MODULES = ("Bio.Data.IUPACData",)
+
+
+def library_constant(dotted: str):
+    """(True, value) for a data constant of a library module the analysis reads as given (Biopython's IUPAC tables, like the
+    enzyme table: trusted library data, T1): a copy of a str or of a dict / tuple of plain values; (False, None) otherwise"""
+    mod, _, name = dotted.rpartition(".")
+    if mod not in LIBRARY_DATA_MODULES or not name or name.startswith("_"):
+        return False, None
+    import copy
+    import importlib
+
+    try:
+        v = getattr(importlib.import_module(mod), name)
+    except Exception:
+        return False, None
+
+    def plain(x):
+        if isinstance(x, (str, int, float)):
+            return True
+        if isinstance(x, dict):
+            return all(plain(k) and plain(w) for k, w in x.items())
+        if isinstance(x, (tuple, list)):
+            return all(plain(y) for y in x)
+        return False
+
+    if not plain(v) or callable(v):
+        return False, None
+    return True, copy.deepcopy(v)
+
+
 def decorator_name(d: ast.expr) -> str:
     if isinstance(d, ast.Call):
         d = d.func
@@ -583,6 +614,12 @@ class Program(object):
                 raise AnalysisError("super(%s, ...) not in MRO of %s" % (after.qualname, ci.qualname))
             mro = mro[idx[0] + 1 :]
         for c in mro:
+            if isinstance(c, ClassInfo) and getattr(c, "opaque_decorator", None):
+                raise AnalysisError("%s is passed through the class decorator %s, which was not evaluated: what its dictionary holds "
+                                    "for `%s` is not known" % (c.qualname, c.opaque_decorator, name))
+            if isinstance(c, ClassInfo) and getattr(c, "unevaluated_hook_attrs", None) and name != "__init_subclass__" \
+                    and (name in c.unevaluated_hook_attrs or "*" in c.unevaluated_hook_attrs):
+                raise AnalysisError("%s.%s is set by an __init_subclass__ hook that was not evaluated for this class" % (c.qualname, name))
             if isinstance(c, ClassInfo) and name in c.attrs:
                 return c, c.attrs[name]
         return None, None
